@@ -36,7 +36,7 @@
   "C12"
  ],
  "level": "P",
- "tier": "wip",
+ "tier": "quick",
  "harness": "h_e2undo",
  "replace": [
   "check_filesystem"
@@ -90,7 +90,7 @@
   "C12"
  ],
  "level": "P",
- "tier": "wip",
+ "tier": "quick",
  "harness": "h_e2undo",
  "replace": [
   "check_filesystem"
@@ -144,7 +144,7 @@
   "C12"
  ],
  "level": "P",
- "tier": "wip",
+ "tier": "quick",
  "harness": "h_e2undo",
  "replace": [
   "check_filesystem"
@@ -200,7 +200,7 @@
   "C06"
  ],
  "level": "P",
- "tier": "obs",
+ "tier": "quick",
  "harness": "h_e2undo",
  "replace": [
   "check_filesystem"
